@@ -64,7 +64,8 @@ static Tree* g_tree;
 static const Scenario* g_sc;
 static int g_manifest_variant;
 static const char* g_msg_fresh = "C04: a command starts only after every producer of what it reads has brought it up to date";
-static const std::string* g_dyndep_override;     // when set: the text every dyndep-producing command writes instead of its spec's
+static const std::string* g_dyndep_override;     // when set: the text the command producing g_dyndep_override_out writes instead of its spec's
+static const char* g_dyndep_override_out = "dd";
 static bool g_dead;                    // the simulated process has died: nothing ninja does persists any more (C07)
 static void persistence_event() { if (verif_vfs_event()) g_dead = true; }     // one event counter for DiskInterface and stdio/unistd mutations
 
@@ -261,7 +262,7 @@ struct SymRunner : public CommandRunner {
     for (size_t k = 0; k < e->outputs_.size(); k++) {
       const std::string& p = e->outputs_[k]->path();
       if (s && s->dyndep_text && k == 0) {
-        VFile* f = g_tree->find(p); std::string text = g_dyndep_override ? *g_dyndep_override : std::string(s->dyndep_text);
+        VFile* f = g_tree->find(p); std::string text = (g_dyndep_override && p == g_dyndep_override_out) ? *g_dyndep_override : std::string(s->dyndep_text);
         if (!((r.flags & KEEP_IF_SAME) && f && f->exists && f->is_text && f->text == text)) g_tree->write_text(p, text);
         continue;
       }
